@@ -308,7 +308,8 @@ async fn exec_inner(world: Arc<World>, c: usize, spec: CallSpec) -> (String, Val
         CallSpec::CreateSub { name, topic, ack, push } => {
             world.ev(
                 "inv",
-                json!({"c": c, "op": "CreateSub", "name": name, "topic": topic, "ack": ack, "push": push.clone().unwrap_or_default()}),
+                json!({"c": c, "op": "CreateSub", "name": name, "topic": topic, "ack": ack, "push": push.clone().unwrap_or_default(),
+                       "push_http": push.as_ref().map(|p| p.trim().starts_with("http")).unwrap_or(true)}),
             );
             let request = Subscription {
                 name: name.clone(),
